@@ -4,6 +4,7 @@ package main
 import (
 	"encoding/json"
 	"errors"
+	"math"
 	"reflect"
 	"sort"
 	"time"
@@ -236,7 +237,7 @@ func run(c *core.Case, st *core.CaseStats, seed int64) {
 			}
 		})
 	case "args":
-		p, q := core.RawInt(c.A[0]), core.RawInt(c.A[1])
+		p, q := huge(core.RawInt(c.A[0])), huge(core.RawInt(c.A[1]))
 		var o struct {
 			Sub    []int         `json:"sub"`
 			Copy   []int         `json:"copy"`
@@ -306,6 +307,19 @@ func run(c *core.Case, st *core.CaseStats, seed int64) {
 	default:
 		panic("unknown fn " + c.Fn)
 	}
+}
+
+// huge maps the specification's Huge (2^30) and Huge-1 to the largest ints, -Huge to the smallest
+func huge(x int) int {
+	switch x {
+	case 1 << 30:
+		return math.MaxInt
+	case 1<<30 - 1:
+		return math.MaxInt - 1
+	case -(1 << 30):
+		return math.MinInt
+	}
+	return x
 }
 
 func main() { core.CasesMain("c14", run, nil) }
